@@ -34,6 +34,17 @@
    6. `fold_degree` (one folding step keeps the degree at or above the bound for all but `2^k - 1`
       challenges).  The probabilistic soundness statement itself is NOT proved — see the
       `UNPROVED` block at the end.
+   7. NO QUERY IS SKIPPED (`Proofs/FriNoSkip*.lean`): `computeNextLayer_covers` — a successful
+      `compute_next_layer`, for a sibling witness of ANY length, produces for every input query `q` a
+      next-layer query of index `q.index / cosetSize`, and hands that coset index to the table
+      decommitment; `computeNextLayer_row_of_query` — `q`'s own value sits at offset
+      `q.index % cosetSize` of the row of that coset, the row that is decommitted and folded into that
+      next-layer query; `verifyLayers_covers` — through all layers the image `q.index / ∏ cosetSizes`
+      of every query is the index of a last-layer query; `verify_checks_every_query` — acceptance of
+      `Fri.verify` implies the last-layer polynomial check was applied to the image of every query
+      index.  Only hypothesis: indices do not wrap in the field (`+ cosetSize ≤ P`, `+ 16 ≤ P`), shown
+      necessary by `covers_needs_nowrap`.  `computeNextLayerSkipping` (a loop bounded by
+      `(queries + siblings) / cosetSize`, NOT the model) violates the conclusion on a concrete input.
 -/
 import Swiftness.Spec.TableSpec
 import Swiftness.Spec.FoldSpec
@@ -41,6 +52,7 @@ import Swiftness.Proofs.FriSoundVerify
 import Swiftness.Proofs.FriSoundChain
 import Swiftness.Proofs.FriSoundLast
 import Swiftness.Proofs.FriSoundExample
+import Swiftness.Proofs.FriNoSkipVerify
 import Swiftness.Props.C06
 
 namespace Swiftness.C07
@@ -576,6 +588,173 @@ theorem fold_degree (k d : ℕ) (cs : List Felt) (i : ℕ) (hi : 2 ^ k * d ≤ i
 example : ([0, 0, 0, 1] : List Felt).getD 3 0 ≠ 0 ∧ 2 ^ 1 * 1 ≤ 3 ∧
     Proofs.FriSound.foldCoeff 1 ([0, 0, 0, 1] : List Felt) 5 1 = 10 := by
   refine ⟨by decide +kernel, by decide, by decide +kernel⟩
+
+/-! ## 7. no query is skipped
+
+  Items 1.–6. speak about the rows and values the verifier DOES handle.  Here: every query given to a
+  successful fold step / layer chain / `Fri.verify` is handled, whatever the LENGTH of the prover's
+  sibling witness (a loop bounded by the witness length would silently drop trailing queries, see
+  `computeNextLayerSkipping` below).  Only hypothesis: the indices do not wrap in the field
+  (`q.index + cosetSize ≤ P`, resp. `+ 16`; real indices are `< 2^64`) — it is needed, see
+  `covers_needs_nowrap`.  Nothing is assumed about the coset size, the order of the queries or the
+  witness. -/
+
+/-- **No query is skipped by a fold step.**  If `compute_next_layer` succeeds then for every input
+    query `q` the coset index `q.index / cosetSize` is the index of a next-layer query and is one of the
+    indices handed to the table decommitment. -/
+theorem computeNextLayer_covers (qs : List LayerQuery) (sibs : List Felt) (cs e : Felt)
+    (r : NextLayer) (h : computeNextLayer qs sibs cs e = .ok r)
+    (hb : ∀ q ∈ qs, q.index.val + cs.val ≤ P) :
+    ∀ q ∈ qs, (∃ q' ∈ r.nextQueries, q'.index.val = q.index.val / cs.val) ∧
+      Felt.ofNat (q.index.val / cs.val) ∈ r.verifyIndices :=
+  Proofs.FriNoSkip.computeNextLayer_covers qs sibs cs e r h hb
+
+/-- … in particular for indices `< 2^64` (no hypothesis on the coset size). -/
+theorem computeNextLayer_covers_of_lt (qs : List LayerQuery) (sibs : List Felt) (cs e : Felt)
+    (r : NextLayer) (h : computeNextLayer qs sibs cs e = .ok r)
+    (hb : ∀ q ∈ qs, q.index.val < 2 ^ 64) :
+    ∀ q ∈ qs, (∃ q' ∈ r.nextQueries, q'.index.val = q.index.val / cs.val) ∧
+      Felt.ofNat (q.index.val / cs.val) ∈ r.verifyIndices :=
+  Proofs.FriNoSkip.computeNextLayer_covers_of_lt qs sibs cs e r h hb
+
+/-- **The queried value itself is Merkle-checked and folded.**  For every input query `q` there is a
+    row number `j`: the `j`-th coset index handed to the table decommitment is `q.index / cosetSize`,
+    `q.yValue` sits at offset `q.index % cosetSize` of the `j`-th row of the values handed to the table
+    decommitment, and the `j`-th next-layer query has that index and is `fri_formula` of that row. -/
+theorem computeNextLayer_row_of_query (qs : List LayerQuery) (sibs : List Felt) (cs e : Felt)
+    (r : NextLayer) (h : computeNextLayer qs sibs cs e = .ok r)
+    (hb : ∀ q ∈ qs, q.index.val + cs.val ≤ P) :
+    ∀ q ∈ qs, ∃ j q', r.verifyIndices[j]? = some (Felt.ofNat (q.index.val / cs.val)) ∧
+      r.verifyYValues[j * cs.val + q.index.val % cs.val]? = some q.yValue ∧
+      r.nextQueries[j]? = some q' ∧ q'.index.val = q.index.val / cs.val ∧
+      ∃ xinv, friFormula ((r.verifyYValues.drop (j * cs.val)).take cs.val) e xinv cs = .ok q'.yValue ∧
+        q'.xInvValue = Felt.pow xinv cs.val :=
+  Proofs.FriNoSkip.computeNextLayer_row_of_query qs sibs cs e r h hb
+
+/-- The no-wrap hypothesis cannot be dropped: coset size 2, queries of index `P-1` and `0`, no sibling
+    leaf — accepted, but the query `0` is consumed as the sibling "`(P-1)+1`" of the first one and its
+    own coset `0` is not among the coset indices. -/
+theorem covers_needs_nowrap :
+    ∃ r, computeNextLayer [⟨Felt.ofNat (P - 1), Felt.ofNat 5, Felt.ofNat 1⟩,
+        ⟨Felt.ofNat 0, Felt.ofNat 7, Felt.ofNat 1⟩] [] (Felt.ofNat 2) (Felt.ofNat 3) = .ok r ∧
+      Felt.ofNat ((Felt.ofNat 0 : Felt).val / (Felt.ofNat 2 : Felt).val) ∉ r.verifyIndices :=
+  Proofs.FriNoSkip.covers_needs_nowrap
+
+/-- `Proofs.FriNoSkip.cosetProd n steps` is the product of the first `n` coset sizes
+    `(Felt.pow 2 step.val).val`; for steps that do not wrap it is `2^(sum of the steps)`. -/
+theorem cosetProd_eq_pow (n : ℕ) (steps : List Felt) (h : ∀ st ∈ steps.take n, st.val ≤ 251) :
+    Proofs.FriNoSkip.cosetProd n steps = 2 ^ ((steps.take n).map (·.val)).sum :=
+  Proofs.FriNoSkip.cosetProd_eq_pow n steps h
+
+/-- **No query is skipped through the layers.**  If `fri_verify_layers` succeeds, every query entering
+    the first of the `n` layers has its image (index divided by the product of the `n` coset sizes)
+    among the indices of the resulting last-layer queries. -/
+theorem verifyLayers_covers (H : Hashes) (n : ℕ) (cs : List Table.Commitment)
+    (ws : List LayerWitness) (es steps : List Felt) (qs last : List LayerQuery)
+    (h : verifyLayers H n cs ws es steps qs = .ok last) (hb : ∀ q ∈ qs, q.index.val + 16 ≤ P) :
+    ∀ q ∈ qs, ∃ q' ∈ last, q'.index.val = q.index.val / Proofs.FriNoSkip.cosetProd n steps :=
+  Proofs.FriNoSkip.verifyLayers_covers H n cs ws es steps qs last h hb
+
+/-- **Every query reaches the last-layer check.**  If `Fri.verify` accepts, then with `fq` the
+    first-layer queries and `last` the last-layer queries of the run, for every query index `qi` its
+    image is the index of a query `q' ∈ last` to which the last-layer check was applied:
+    `q'.xInvValue ≠ 0` and `P_last(1/q'.xInvValue) = q'.yValue` (the facts `last_layer_accept` /
+    `last_layer_binding` are about). -/
+theorem verify_checks_every_query (H : Hashes) (queries : List Felt) (c : Commitment)
+    (values points : List Felt) (w : List LayerWitness)
+    (hok : Fri.verify H queries c values points w = .ok ())
+    (hb : ∀ qi ∈ queries, qi.val + 16 ≤ P) :
+    ∃ fq last, gatherFirstLayer queries values points = .ok fq ∧
+      verifyLayers H (c.config.nLayers - 1).val c.innerLayers w c.evalPoints
+        (c.config.friStepSizes.drop 1) fq = .ok last ∧
+      verifyLastLayer last c.lastLayerCoefficients = .ok () ∧
+      ∀ qi ∈ queries, ∃ q' ∈ last,
+        q'.index.val = qi.val / Proofs.FriNoSkip.cosetProd (c.config.nLayers - 1).val
+          (c.config.friStepSizes.drop 1) ∧
+        q'.xInvValue ≠ 0 ∧ evalL c.lastLayerCoefficients (q'.xInvValue)⁻¹ = q'.yValue :=
+  Proofs.FriNoSkip.verify_checks_every_query H queries c values points w hok hb
+
+/-- non-vacuity: step 1 (coset size 2), queries `2` and `5` (cosets `1` and `2`), sibling leaves `9`
+    (index 3) and `11` (index 4): accepted, the hypothesis of `computeNextLayer_covers` holds and the
+    next layer has exactly the two images `1 = 2/2` and `2 = 5/2`. -/
+example :
+    (∀ q ∈ [(⟨Felt.ofNat 2, Felt.ofNat 5, Felt.ofNat 1⟩ : LayerQuery),
+        ⟨Felt.ofNat 5, Felt.ofNat 7, Felt.ofNat 1⟩], q.index.val + (Felt.ofNat 2 : Felt).val ≤ P) ∧
+    ∃ r, computeNextLayer [⟨Felt.ofNat 2, Felt.ofNat 5, Felt.ofNat 1⟩,
+        ⟨Felt.ofNat 5, Felt.ofNat 7, Felt.ofNat 1⟩] [Felt.ofNat 9, Felt.ofNat 11]
+        (Felt.ofNat 2) (Felt.ofNat 3) = .ok r ∧
+      r.nextQueries.map (·.index.val) = [1, 2] ∧ r.verifyIndices = [Felt.ofNat 1, Felt.ofNat 2] ∧
+      r.verifyYValues = [Felt.ofNat 5, Felt.ofNat 9, Felt.ofNat 11, Felt.ofNat 7] := by
+  refine ⟨by decide +kernel, ?_⟩
+  have h : (match computeNextLayer [⟨Felt.ofNat 2, Felt.ofNat 5, Felt.ofNat 1⟩,
+        ⟨Felt.ofNat 5, Felt.ofNat 7, Felt.ofNat 1⟩] [Felt.ofNat 9, Felt.ofNat 11]
+        (Felt.ofNat 2) (Felt.ofNat 3) with
+      | .ok r => decide (r.nextQueries.map (·.index.val) = [1, 2] ∧
+          r.verifyIndices = [Felt.ofNat 1, Felt.ofNat 2] ∧
+          r.verifyYValues = [Felt.ofNat 5, Felt.ofNat 9, Felt.ofNat 11, Felt.ofNat 7])
+      | _ => false) = true := by decide +kernel
+  split at h
+  · next r hr => exact ⟨r, hr, of_decide_eq_true h⟩
+  · cases h
+
+/-- NEGATIVE example (not the model): `compute_next_layer` with the while-loop bounded by
+    `(queries.len() + sibling_witness.len()) / coset_size` iterations, as a seeded defect did — when
+    the bound is reached the queries still pending are silently dropped. -/
+def nextLayerLoopSkipping (cs e : Felt) : ℕ → List LayerQuery → List Felt → List LayerQuery →
+    List Felt → List Felt → Outcome NextLayer
+  | 0, _, sibs, nq, vi, vy => .ok ⟨nq.reverse, vi.reverse, vy, sibs⟩
+  | k + 1, [], sibs, nq, vi, vy => nextLayerLoopSkipping cs e k [] sibs nq vi vy
+  | k + 1, q :: qs, sibs, nq, vi, vy =>
+    let ci := Felt.ofNat (q.index.val / cs.val)
+    match cosetElements (q :: qs) sibs cs (ci * cs) with
+    | .ok r =>
+      match friFormula r.elements e r.xInv cs with
+      | .ok y => nextLayerLoopSkipping cs e k r.queries r.siblings
+          (⟨ci, y, Felt.pow r.xInv cs.val⟩ :: nq) (ci :: vi) (vy ++ r.elements)
+      | .err x => .err x
+      | .panic s => .panic s
+    | .err x => .err x
+    | .panic s => .panic s
+
+def computeNextLayerSkipping (qs : List LayerQuery) (sibs : List Felt) (cs e : Felt) :
+    Outcome NextLayer :=
+  nextLayerLoopSkipping cs e ((qs.length + sibs.length) / cs.val) qs sibs [] [] []
+
+/-- The conclusion of `computeNextLayer_covers` FAILS for that loop: coset size 2, queries `0, 1`
+    (coset `0`, complete) and `4` (coset `2`, needs the sibling leaf of index 5), EMPTY sibling
+    witness.  The bounded loop runs `(3 + 0) / 2 = 1` iteration and accepts with the single coset `0`:
+    the query `4` is dropped, its coset `2` is absent.  The real `compute_next_layer` rejects this
+    input, as `computeNextLayer_covers` demands. -/
+example :
+    (∀ q ∈ [(⟨Felt.ofNat 0, Felt.ofNat 5, Felt.ofNat 1⟩ : LayerQuery),
+        ⟨Felt.ofNat 1, Felt.ofNat 6, Felt.ofNat 1⟩, ⟨Felt.ofNat 4, Felt.ofNat 7, Felt.ofNat 1⟩],
+        q.index.val + (Felt.ofNat 2 : Felt).val ≤ P) ∧
+    (∃ r, computeNextLayerSkipping [⟨Felt.ofNat 0, Felt.ofNat 5, Felt.ofNat 1⟩,
+        ⟨Felt.ofNat 1, Felt.ofNat 6, Felt.ofNat 1⟩, ⟨Felt.ofNat 4, Felt.ofNat 7, Felt.ofNat 1⟩] []
+        (Felt.ofNat 2) (Felt.ofNat 3) = .ok r ∧
+      r.verifyIndices = [Felt.ofNat 0] ∧ r.nextQueries.map (·.index.val) = [0] ∧
+      Felt.ofNat ((Felt.ofNat 4 : Felt).val / (Felt.ofNat 2 : Felt).val) ∉ r.verifyIndices) ∧
+    computeNextLayer [⟨Felt.ofNat 0, Felt.ofNat 5, Felt.ofNat 1⟩,
+        ⟨Felt.ofNat 1, Felt.ofNat 6, Felt.ofNat 1⟩, ⟨Felt.ofNat 4, Felt.ofNat 7, Felt.ofNat 1⟩] []
+        (Felt.ofNat 2) (Felt.ofNat 3) = .err "SiblingWitnessTooShort" := by
+  refine ⟨by decide +kernel, ?_, ?_⟩
+  · have h : (match computeNextLayerSkipping [⟨Felt.ofNat 0, Felt.ofNat 5, Felt.ofNat 1⟩,
+          ⟨Felt.ofNat 1, Felt.ofNat 6, Felt.ofNat 1⟩, ⟨Felt.ofNat 4, Felt.ofNat 7, Felt.ofNat 1⟩] []
+          (Felt.ofNat 2) (Felt.ofNat 3) with
+        | .ok r => decide (r.verifyIndices = [Felt.ofNat 0] ∧ r.nextQueries.map (·.index.val) = [0] ∧
+            Felt.ofNat ((Felt.ofNat 4 : Felt).val / (Felt.ofNat 2 : Felt).val) ∉ r.verifyIndices)
+        | _ => false) = true := by decide +kernel
+    split at h
+    · next r hr => exact ⟨r, hr, of_decide_eq_true h⟩
+    · cases h
+  · have h : (match computeNextLayer [⟨Felt.ofNat 0, Felt.ofNat 5, Felt.ofNat 1⟩,
+          ⟨Felt.ofNat 1, Felt.ofNat 6, Felt.ofNat 1⟩, ⟨Felt.ofNat 4, Felt.ofNat 7, Felt.ofNat 1⟩] []
+          (Felt.ofNat 2) (Felt.ofNat 3) with
+        | .err x => decide (x = "SiblingWitnessTooShort")
+        | _ => false) = true := by decide +kernel
+    split at h
+    · next x hx => rw [hx, of_decide_eq_true h]
+    · cases h
 
 /- UNPROVED (the probabilistic part of C07; NOT provable in this development)
 
